@@ -111,7 +111,11 @@ pub fn compare(what: &str, reference: &Outcome, got: &Outcome, is_ordered: bool)
 
 /// does the spec contain `x IS <bound boolean>` / `x IS NOT <bound boolean>`?
 fn has_is_bound_bool(s: &Stmt) -> bool {
-    let j = serde_json::to_string(s).unwrap_or_default();
+    let mut j = serde_json::to_string(s).unwrap_or_default();
+    // an enum cast writes nothing on SQLite: `x IS (true AS ENUM)` is the same bound boolean
+    while j.contains("{\"AsEnum\":{\"Bool\":") {
+        j = j.replace("{\"AsEnum\":{\"Bool\":", "{\"Bool\":");
+    }
     j.contains("\"Is\",{\"Bool\":") || j.contains("\"IsNot\",{\"Bool\":")
 }
 
